@@ -188,6 +188,11 @@ impl Storm {
             };
             let (liq, col) = if cfg.magnitude == 0 { (liq.min(1 << 30), col.min(1 << 30).max((liq > 0) as u64)) } else { (liq, col) };
             let px = PythPx { price: p, conf: cf, ema: p, ema_conf: cf, expo, publish_time: now, partial: 0 };
+            if r.gen_bool(0.3) {
+                // the Switchboard variant of the venue oracle setup
+                let v = (usd * 1e18) as i128;
+                w.venue_swb_next = Some(SwbPx { value: v, std_dev: (v as f64 * conf_frac / 1.96) as i128, last_update: now });
+            }
             if drift {
                 let mut c = marginfi::state::drift::DriftConfigCompact::default();
                 c.asset_weight_init = wi(ai);
@@ -517,7 +522,7 @@ impl Storm {
                 p.publish_time = w.chain.now();
                 w.set_pyth(&k, p);
             }
-            OracleD::Swb(k) => {
+            OracleD::Swb(k) | OracleD::VenueSwb { oracle: k, .. } => {
                 let mut p = w.swb[&k];
                 p.value = ((p.value as f64 * f) as i128).max(1);
                 let cf = pick(&mut self.r, &[0.0, 0.001, 0.02, 0.06]);
